@@ -61,7 +61,10 @@ class P(ServeProp):
             path = tgt.split("?")[0].split("#")[0]
             comps = [c for c in path.split("/") if c not in ("", ".")]
             links = [e[1][len("outer/root/"):] for e in pc["ents"] if e[0] == "L" and e[1].startswith("outer/root/")]
-            via_link = any(comps[:len(l.split("/"))] == l.split("/") for l in links) or \
+            # the path itself, the directory index of the path, and the path with .html appended are the candidates the server tries:
+            # each may be (or lie under) a link the owner placed
+            cands = [comps, comps + ["index.html"], (comps[:-1] + [comps[-1] + ".html"]) if comps else comps]
+            via_link = any(c[:len(l.split("/"))] == l.split("/") for c in cands for l in links) or \
                 (pc["kind"] == "serveL" and any(tgt.lstrip("/").startswith(l) for l in links))
             # the cwd-relative override pages: 404.html for every 404, index.html for "/"
             if code == b"404" and "404.html" in links:
